@@ -3,7 +3,7 @@
 From Coq Require Import List ZArith NArith Bool Arith String.
 Import ListNotations.
 From DD Require Import Base.Sx Base.PyStr Base.Value Diff.Tree Diff.DiffModel Hash.HashModel
-  DiffIO.DiffIOModel DiffIO.DiffIOShow Options.OptModel HashDiff.HashDiffModel HashDiff.HashDiffProofsAtoms HashDiff.HashDiffProofsLift.
+  DiffIO.DiffIOModel DiffIO.DiffIOShow Options.OptModel HashDiff.HashDiffModel HashDiff.HashDiffProofsAtoms HashDiff.HashDiffProofsLift HashDiff.HashDiffProofsKeys.
 Local Open Scope string_scope.
 
 (* the hasher of the model runs: hex of the UTF-8 bytes behind a letter, so that the
@@ -49,3 +49,8 @@ Fixpoint guard_chars (l : list bool) : string :=
   | b :: r => ((if b then "T" else "F") ++ guard_chars r)%string
   end.
 Definition run_c12_guards (l : list bool) : string := ("BEGIN" ++ nl ++ guard_chars l ++ nl ++ "END")%string.
+
+(* both guards on one case: [lift_guard ; lift_guardb] as two characters *)
+Definition g2 (c : cfg) (F : opts) (rep : bool) (t1 t2 : value) : list bool :=
+  [lift_guard c F rep t1 t2; lift_guardb c F rep t1 t2].
+Definition run_c12_guards2 (l : list (list bool)) : string := run_c12_guards (List.concat l).
